@@ -5,6 +5,7 @@ package c12
 
 import (
 	"fmt"
+	"sort"
 	"strings"
 	"time"
 
@@ -285,6 +286,19 @@ func genTable(rt *rapid.T, name string, forConc bool) (*table, []index) {
 			t.indexes = append(t.indexes, ix)
 		}
 	}
+	// larger pools for unique columns: a unique column over 3 values holds 3 rows at most
+	for _, ix := range append(append([]index(nil), t.indexes...), later...) {
+		if !ix.unique {
+			continue
+		}
+		for _, cid := range ix.cols {
+			c := t.col(cid)
+			if len(c.pool) < 6 {
+				c.pool = nil
+				fillPool(rt, c, rapid.IntRange(6, 10).Draw(rt, "uniquePool"))
+			}
+		}
+	}
 	return t, later
 }
 
@@ -430,6 +444,10 @@ func existingRow(rt *rapid.T, t *table) row {
 
 func (h *harness) genDML(rt *rapid.T, t *table, o genOpts) *stmt {
 	kind := weighted(rt, "dml", []wc{{"insert", 36}, {"upsert", 10}, {"ignore", 6}, {"doupdate", 10}, {"update", 22}, {"delete", 16}})
+	if o.conc {
+		// sessions whose statements mostly succeed: only committed transactions meet each other
+		kind = weighted(rt, "dmlConc", []wc{{"insert", 28}, {"upsert", 18}, {"ignore", 14}, {"doupdate", 10}, {"update", 20}, {"delete", 10}})
+	}
 	ac := t.autoCol()
 	tombstoneBan := o.conc && t.hasUnique() && h.excluded(kUniqueTombstone)
 	if tombstoneBan && kind == "delete" {
@@ -441,6 +459,9 @@ func (h *harness) genDML(rt *rapid.T, t *table, o genOpts) *stmt {
 	case "insert", "upsert", "ignore", "doupdate":
 		s.kind = map[string]stmtKind{"insert": kInsert, "upsert": kUpsert, "ignore": kInsertIgnore, "doupdate": kInsertUpdate}[kind]
 		omitAuto := ac != nil && (s.kind == kInsert && chance(rt, "omitAuto", 75) || s.kind != kInsert && chance(rt, "omitAuto2", 10))
+		if ac != nil && o.conc && s.kind == kInsert {
+			omitAuto = true
+		}
 		if omitAuto && t.explicitAuto && !o.oneShot && h.excluded(kAutoAfterExpl) {
 			// a generated key after an explicit one in the same transaction: known finding K12i
 			vk.CountExcluded(kAutoAfterExpl)
@@ -491,31 +512,15 @@ func (h *harness) genDML(rt *rapid.T, t *table, o genOpts) *stmt {
 			if chance(rt, "useExisting", wantExisting) {
 				ex = existingRow(rt, t)
 			}
-			vals := make([]V, len(s.cols))
-			for i, cid := range s.cols {
-				c := t.col(cid)
-				if t.isPK(cid) {
-					if ex != nil {
-						vals[i] = ex[cid]
-					} else if hv, ok := o.hot[t.name+"."+c.name]; ok && chance(rt, "hotPK", 50) {
-						vals[i] = hv
-					} else {
-						vals[i] = pickV(rt, "pkVal", c.pool)
-						if c.autoInc && chance(rt, "bigAuto", 50) {
-							vals[i] = sqlgen.Int(int64(rapid.IntRange(1, 40).Draw(rt, "autoExplicit")))
-						}
-					}
-					continue
-				}
-				vals[i] = genValue(rt, t, c, o)
-				if tombstoneBan && ex != nil && t.inUnique(cid) && s.kind != kInsert && s.kind != kInsertIgnore {
-					// would move an existing row to another unique key (tombstone): keep its key
-					if v, ok := ex[cid]; ok {
-						vals[i] = v
-					} else {
-						vals[i] = sqlgen.Null(c.typ)
-					}
-					vk.CountExcluded(kUniqueTombstone)
+			tries := 1
+			if o.conc {
+				tries = 4
+			}
+			var vals []V
+			for try := 0; try < tries; try++ {
+				vals = h.genRowVals(rt, t, s, ex, o, tombstoneBan)
+				if try == tries-1 || h.plausible(t, s, vals, ex != nil) {
+					break
 				}
 			}
 			s.rows = append(s.rows, vals)
@@ -547,6 +552,106 @@ func (h *harness) genDML(rt *rapid.T, t *table, o genOpts) *stmt {
 		}
 	}
 	return s
+}
+
+// plausible: the row passes the CHECKs and, for a plain INSERT of a new row, its key is free in the reference copy.
+func (h *harness) plausible(t *table, s *stmt, vals []V, existing bool) bool {
+	r := row{}
+	for i, cid := range s.cols {
+		if !vals[i].Null {
+			r[cid] = vals[i]
+		}
+	}
+	for _, ck := range t.checks {
+		if ck.e.eval(r) == tFalse {
+			return false
+		}
+	}
+	pk, havePK := t.pkKeyOf(r)
+	if s.kind == kInsert && !existing && havePK {
+		if _, taken := t.rows[pk]; taken {
+			return false
+		}
+	}
+	for _, ix := range t.indexes {
+		if !ix.unique {
+			continue
+		}
+		k, nn := projKey(ix, r)
+		if !nn {
+			continue
+		}
+		for opk, or := range t.rows {
+			if ok, _ := projKey(ix, or); ok == k && (!havePK || opk != pk) {
+				return false
+			}
+		}
+	}
+	return true
+}
+
+func (h *harness) genRowVals(rt *rapid.T, t *table, s *stmt, ex row, o genOpts, tombstoneBan bool) []V {
+	vals := make([]V, len(s.cols))
+	for i, cid := range s.cols {
+		c := t.col(cid)
+		if t.isPK(cid) {
+			if ex != nil {
+				vals[i] = ex[cid]
+			} else if hv, ok := o.hot[t.name+"."+c.name]; ok && chance(rt, "hotPK", 50) {
+				vals[i] = hv
+			} else {
+				vals[i] = pickV(rt, "pkVal", c.pool)
+				if c.autoInc && chance(rt, "bigAuto", 50) {
+					vals[i] = sqlgen.Int(int64(rapid.IntRange(1, 40).Draw(rt, "autoExplicit")))
+				}
+			}
+		}
+	}
+	if ex == nil {
+		// the key may exist all the same
+		r := row{}
+		for i, cid := range s.cols {
+			if t.isPK(cid) {
+				r[cid] = vals[i]
+			}
+		}
+		if pk, ok := t.pkKeyOf(r); ok {
+			ex = t.rows[pk]
+		}
+	}
+	// delete-then-reinsert on unique columns: take the unique key some row version held before
+	var donor row
+	if t.hasUnique() && len(t.versions) > 0 && chance(rt, "reuseUniqueKey", 40) {
+		var pks []string
+		for pk := range t.versions {
+			pks = append(pks, pk)
+		}
+		sort.Strings(pks)
+		vs := t.versions[pks[rapid.IntRange(0, len(pks)-1).Draw(rt, "donorPK")]]
+		donor = vs[rapid.IntRange(0, len(vs)-1).Draw(rt, "donorVersion")]
+	}
+	for i, cid := range s.cols {
+		if t.isPK(cid) {
+			continue
+		}
+		c := t.col(cid)
+		vals[i] = genValue(rt, t, c, o)
+		if donor != nil && t.inUnique(cid) {
+			if v, ok := donor[cid]; ok {
+				vals[i] = v
+			}
+		}
+		if tombstoneBan && ex != nil && t.inUnique(cid) && s.kind != kInsert && s.kind != kInsertIgnore {
+			// would move an existing row to another unique key (tombstone): keep its key
+			if v, ok := ex[cid]; ok {
+				vals[i] = v
+			} else {
+				vals[i] = sqlgen.Null(c.typ)
+			}
+			vk.CountExcluded(kUniqueTombstone)
+		}
+	}
+	return vals
 }
 
 // genSet draws the assignments of UPDATE / ON CONFLICT DO UPDATE.
